@@ -63,6 +63,16 @@ prop("C13", [
     dict(POOL_B, checks=["allocate_address/C13"]),
 ], explanation="dispatch on message type, foreign server-id refused before any pool access, errors leave the table unchanged, a reply touches only the row of yiaddr and echoes xid/chaddr/giaddr/flags",
     assumptions=["ResponseOptions / DhcpOptions accessor contracts assumed in unit dhcphandlers (HashMap glue); the DhcpParse impls behind them are proved in unit dhcpgetters"])
+prop("C17", [
+    dict(engine="verus", unit="raser", fns=["serialise_router_advertisement", "clamp_u16", "clamp_u32", "prefix_mask", "pref64_plc", "pref64_prefixlen",
+                                             "Serialise::serialise", "Serialise::len"]),
+    dict(engine="kani", sets=["radv_ser"]),
+], explanation="the octets produced by icmppkt::serialise_router_advertisement equal, for every RtrAdvertisement value and any number of options, the RFC 4861/8106/8781/8910 encoding of the (clamped) values; message length a multiple of 8; each option 8 x its length octet long",
+    assumptions=["the six SerialiseInto impls append exactly the big-endian octets (assumed in Verus; checked by the Kani set radv_ser: scalars and Ipv6Addr complete, byte slices / str bounded to 3 / 2 octets)",
+                 "str operations of the DNSSL arm (strip_suffix, split('.'), len, dnssl_name_ok's iterator chain) and slice::chunks are opaque stubs with their std meaning (split: labels and dots add up to the name)",
+                 "SourceLLAddr options fill whole 8-octet units (precondition; the only producer, build_announcement_pure, passes a 6-octet Ethernet address -- type [u8; 6])",
+                 "build_announcement (async, netinfo) and the YAML loader of radv/config.rs are not under contract"])
+
 prop("C18", [
     dict(engine="verus", unit="poolschema"),
     dict(engine="verus", unit="pool", fns=["Pool::allocate_address"]),
